@@ -344,7 +344,9 @@ func buildVideoUnit(codec string, track, idx int, key bool, p *videoParams, inba
 			data = append(data, p.vps, p.sps, p.pps)
 		}
 		if key {
-			data = append(data, append([]byte{0x26, 0x01}, body...))
+			// IDR_W_RADL (19), IDR_N_LP (20) or CRA (21): all three are random-access pictures
+			hdr := [][]byte{{0x26, 0x01}, {0x28, 0x01}, {0x2a, 0x01}}[idx%3]
+			data = append(data, append(append([]byte(nil), hdr...), body...))
 		} else {
 			data = append(data, append([]byte{0x02, 0x01}, body...))
 		}
